@@ -62,14 +62,21 @@ EncViolated(r) ==
 
 \* round trip: cog's own parser read the emitted document back (Reparsed[r.ri]); for every object it declared, what the
 \* property lists (names of fields, required-ness, constraints, enum values, defaults) equals the IR the document was
-\* emitted from. Objects the parser did not declare (it only follows references from the entry point) are not compared.
+\* emitted from. Objects the parser did not declare AND cannot reach from the entry point are not compared.
 RtViolated(r) ==
   LET sc  == Schemas[r.si]
       rp  == Reparsed[r.ri]
       exp == EmitDoc([defs |-> sc.defs, root |-> sc.root], sc.foreign, r.pkg)
       got == EmitDoc([defs |-> rp.defs, root |-> rp.root], rp.foreign, "")
       present == SelectSeq(exp, LAMBDA e : HasDef(got, e.name))
-  IN {D("rt-" \o d.c, d.p, d.w) : d \in DocDiffs(present, [defs |-> got, root |-> ""])}
+      \* ... but an object the parser CAN reach - the IR has an entry point and the object is reachable from it through
+      \* references - must come back under its own name: "accepted by cog's own parsers, every `$ref` resolves, every
+      \* object of the IR appears under its own name" (main package's document)
+      S     == DefsFn([defs |-> sc.defs, root |-> sc.root])
+      reach == IF r.pkg = "" /\ sc.root \in DOMAIN S THEN Closure(S, {sc.root}) ELSE {}
+      lost  == {i \in DOMAIN exp : exp[i].src \in reach /\ ~HasDef(got, exp[i].name)}
+  IN      {D("rt-" \o d.c, d.p, d.w) : d \in DocDiffs(present, [defs |-> got, root |-> ""])}
+     \cup {D("rt-names", <<exp[i].name>>, "object") : i \in lost}
 
 Violated(r) == CASE r.kind = "emit" -> EmitViolated(r) [] r.kind = "rt" -> RtViolated(r) [] OTHER -> EncViolated(r)
 
